@@ -103,6 +103,12 @@ LabelSnippet(nLabels, body) ==
   LET extra == IF nLabels > 0 THEN [j \in 1..(nLabels - 1) |-> 1 + j] ELSE <<>>
   IN  extra \o ReqFields(body, 2 + Len(extra))[1] \o <<0>>
 
+\* decoder.snippetForBlock with prefilling, for a block whose first dk labels are dependency keys (as repaired: the
+\* last key label is the final stop, the ones before are visited in order; labels that are no keys are written as text)
+BlockSnippet(nLabels, dk) == [j \in 1..(dk - 1) |-> j] \o <<0>>
+\* the defect: every key label was the final stop
+OldBlockSnippet(nLabels, dk) == [j \in 1..dk |-> 0]
+
 -----------------------------------------------------------------------------
 \* P
 NonZero(s) == SelectSeq(s, LAMBDA x : x # 0)
